@@ -261,7 +261,37 @@ macro_rules! seq_cor {
     };
 }
 seq_cor!(Vec, "Vec", false, []);
-seq_cor!(VecDeque, "VecDeque", false, []);
+// a deque has two storage shapes for one logical value: contiguous (collected) and wrapped around the end of its
+// ring buffer (filled from both ends); both occur
+impl<T: Cor> Cor for VecDeque<T> {
+    fn name() -> String {
+        format!("VecDeque<{}>", T::name())
+    }
+    fn small() -> Vec<Self> {
+        let mut out: Vec<VecDeque<T>> = vec![];
+        for v in seqs(&T::small()) {
+            out.push(v.iter().cloned().collect());
+            if v.len() >= 2 {
+                let mut d: VecDeque<T> = VecDeque::with_capacity(v.len() + 1);
+                for x in &v[1..] {
+                    d.push_back(x.clone());
+                }
+                d.push_front(v[0].clone());
+                out.push(d);
+            }
+        }
+        out
+    }
+    fn to_ty(env: &mut Env) -> Ty {
+        Ty::vec(T::to_ty(env))
+    }
+    fn to_val(&self) -> Val {
+        Val::Vec(self.iter().map(|x| x.to_val()).collect())
+    }
+    fn unordered() -> bool {
+        T::unordered()
+    }
+}
 seq_cor!(LinkedList, "LinkedList", false, []);
 // sets and maps have no wire order of their own (a BTree* re-sorts what it receives)
 seq_cor!(BTreeSet, "BTreeSet", true, [+ Ord]);
